@@ -3,6 +3,9 @@ together, mean 'output is a function of the input files and options only':
 
   reads/set-order   no value whose iteration order depends on the string-hash seed (set / frozenset / dict-view
                     algebra) is iterated, listed or popped - unless wrapped in sorted() - in the package;
+                    this includes sets kept in a container or an attribute and iterated elsewhere: the flow
+                    `X[k] = set()` / `X[k].add(..)` / `self.a = set()`  ->  argument of a package function  ->
+                    `for v in P[k]` is followed by name through the call graph (second pass, scan_set_escape);
   reads/ambient     no use of id(), hash(), time, random, uuid, os.environ, os.getpid in the package;
   frame/global      no function stores into / mutates a module-level or class-level mutable object;
   frame/default     no mutable default argument is mutated;
@@ -34,6 +37,9 @@ ALLOW = {
     "pdb2pqr/ligand/mol2.py::Mol2Molecule.set_rings::rings":
         "the loop only tests each ring for membership in ring_sets and adds it to another set; the result (self.rings, a "
         "set; num_rings counters incremented per ring) does not depend on the order in which the rings are visited",
+    "pdb2pqr/ligand/mol2.py::Mol2Molecule.set_rings::self.rings":
+        "the loop body is `self.atoms[atom].num_rings += 1` for every atom of every ring: integer increments commute, so "
+        "the counters do not depend on the order in which the rings come out of the set; nothing else reads self.rings",
 }
 
 
@@ -214,6 +220,7 @@ class FuncVisitor(ast.NodeVisitor):
 def scan():
     root = os.path.join(repo(), "pdb2pqr")
     sites = []
+    trees = []
     nfiles = 0
     nfuncs = 0
     for d, dirs, files in sorted(os.walk(root)):
@@ -246,7 +253,133 @@ def scan():
             v.modfuncs = {st.name for st in tree.body if isinstance(st, (ast.FunctionDef, ast.ClassDef))}
             v.visit(tree)
             sites.extend(v.sites)
+            trees.append((rel, tree))
+    sites.extend(scan_set_escape(trees))
     return sites, nfiles, nfuncs
+
+
+# ---------------------------------------------------------------- second pass: sets that escape into containers / attributes
+def _setish_expr(e):
+    if isinstance(e, (ast.Set, ast.SetComp)):
+        return True
+    if isinstance(e, ast.Call):
+        f = e.func
+        if isinstance(f, ast.Name) and f.id in ("set", "frozenset"):
+            return True
+        if isinstance(f, ast.Attribute) and f.attr in SET_METHODS:
+            return True
+    return False
+
+
+def _base_name(e):
+    """`X` for the expression X, `self.a` for self.a - the names the flow is followed by."""
+    if isinstance(e, ast.Name):
+        return e.id
+    if isinstance(e, ast.Attribute) and isinstance(e.value, ast.Name) and e.value.id == "self":
+        return "self." + e.attr
+    return None
+
+
+def scan_set_escape(trees):
+    """trees: list of (rel, ast module).  Returns extra `reads/set-order` sites."""
+    funcs = {}      # simple name -> list of (rel, qualname, FunctionDef)
+    infos = []
+
+    def walk_funcs(rel, node, stack):
+        for ch in ast.iter_child_nodes(node):
+            if isinstance(ch, ast.ClassDef):
+                walk_funcs(rel, ch, stack + [ch.name])
+            elif isinstance(ch, (ast.FunctionDef, ast.AsyncFunctionDef)):
+                q = ".".join(stack + [ch.name])
+                funcs.setdefault(ch.name, []).append((rel, q, ch))
+                infos.append((rel, q, ch))
+                walk_funcs(rel, ch, stack + [ch.name])
+
+    for rel, tree in trees:
+        walk_funcs(rel, tree, [])
+    elem = {}       # (rel, qual) -> {name: where it was filled}
+    attrsets = {}   # rel -> {"self.a": where}
+    for rel, q, fn in infos:
+        t = elem.setdefault((rel, q), {})
+        for n in ast.walk(fn):
+            if isinstance(n, ast.Assign):
+                for tg in n.targets:
+                    if isinstance(tg, ast.Subscript) and _setish_expr(n.value) and _base_name(tg.value):
+                        t[_base_name(tg.value)] = f"{rel}:{n.lineno} {q}"
+                    if isinstance(tg, ast.Attribute) and _setish_expr(n.value) and _base_name(tg):
+                        attrsets.setdefault(rel, {})[_base_name(tg)] = f"{rel}:{n.lineno} {q}"
+            if isinstance(n, ast.Call) and isinstance(n.func, ast.Attribute):
+                f = n.func
+                if f.attr == "add" and isinstance(f.value, ast.Subscript) and _base_name(f.value.value):
+                    t[_base_name(f.value.value)] = f"{rel}:{n.lineno} {q}"
+                if f.attr in ("setdefault",) and len(n.args) == 2 and _setish_expr(n.args[1]) and _base_name(f.value):
+                    t[_base_name(f.value)] = f"{rel}:{n.lineno} {q}"
+                if f.attr in ("append", "insert") and n.args and _setish_expr(n.args[-1]) and _base_name(f.value):
+                    t[_base_name(f.value)] = f"{rel}:{n.lineno} {q}"
+    # flow through calls, by simple function name and argument position (fixpoint, a few rounds)
+    for _ in range(4):
+        changed = False
+        for rel, q, fn in infos:
+            mine = elem[(rel, q)]
+            if not mine:
+                continue
+            for n in ast.walk(fn):
+                if not isinstance(n, ast.Call):
+                    continue
+                cname = n.func.id if isinstance(n.func, ast.Name) else (n.func.attr if isinstance(n.func, ast.Attribute) else None)
+                if cname not in funcs:
+                    continue
+                for crel, cq, cfn in funcs[cname]:
+                    params = [a.arg for a in cfn.args.posonlyargs + cfn.args.args]
+                    off = 1 if (params and params[0] in ("self", "cls") and isinstance(n.func, ast.Attribute)) else 0
+                    for i, a in enumerate(n.args):
+                        b = _base_name(a)
+                        if b in mine and i + off < len(params):
+                            tgt = elem[(crel, cq)]
+                            if params[i + off] not in tgt:
+                                tgt[params[i + off]] = mine[b]
+                                changed = True
+                    for kw in n.keywords:
+                        b = _base_name(kw.value)
+                        if b in mine and kw.arg in params and kw.arg not in elem[(crel, cq)]:
+                            elem[(crel, cq)][kw.arg] = mine[b]
+                            changed = True
+        if not changed:
+            break
+    sites = []
+
+    def sink(rel, q, node, what, origin):
+        sites.append({"kind": "reads/set-order", "file": rel, "function": q, "line": node.lineno,
+                      "source": " ".join(ast.unparse(node).split())[:160], "note": f"{what} (set built at {origin})"})
+
+    def is_sorted_arg(node):
+        par = getattr(node, "_parent", None)
+        return isinstance(par, ast.Call) and isinstance(par.func, ast.Name) and par.func.id in ("sorted", "len", "bool", "min", "max", "sum")
+
+    for rel, q, fn in infos:
+        mine = elem[(rel, q)]
+        asets = attrsets.get(rel, {})
+        for n in ast.walk(fn):
+            iters = []
+            if isinstance(n, (ast.For, ast.AsyncFor)):
+                iters.append(n.iter)
+            if isinstance(n, ast.comprehension):
+                iters.append(n.iter)
+            if isinstance(n, ast.Call) and isinstance(n.func, ast.Name) and n.func.id in ("list", "tuple", "next", "iter", "enumerate") and n.args:
+                iters.append(n.args[0])
+            if isinstance(n, ast.Call) and isinstance(n.func, ast.Attribute) and n.func.attr in ("join", "extend") and n.args:
+                iters.append(n.args[0])
+            for it in iters:
+                if is_sorted_arg(it):
+                    continue
+                if isinstance(it, ast.Subscript) and _base_name(it.value) in mine:
+                    sink(rel, q, it, "iteration over a set kept in a container", mine[_base_name(it.value)])
+                if isinstance(it, ast.Call) and isinstance(it.func, ast.Attribute) and it.func.attr == "get" \
+                        and _base_name(it.func.value) in mine:
+                    sink(rel, q, it, "iteration over a set kept in a container", mine[_base_name(it.func.value)])
+                if isinstance(it, ast.Attribute) and _base_name(it) in asets:
+                    sink(rel, q, it, "iteration over a set-valued attribute", asets[_base_name(it)])
+    return sites
 
 
 def key(s):
